@@ -126,6 +126,8 @@ pub struct Cfg {
     pub run_jobs: bool,
     pub prelude: bool,
     pub fuel: u64,
+    /// collect at every k-th allocation already while the context and prelude are being created
+    pub gc_setup: Option<u64>,
 }
 impl Default for Cfg {
     fn default() -> Self {
@@ -141,6 +143,7 @@ impl Default for Cfg {
             run_jobs: true,
             prelude: true,
             fuel: 1_000_000,
+            gc_setup: None,
         }
     }
 }
@@ -186,6 +189,9 @@ impl Cfg {
         }
         if let Some(n) = v.get("fuel").and_then(Value::as_u64) {
             c.fuel = n;
+        }
+        if let Some(n) = v.get("gc_setup").and_then(Value::as_u64) {
+            c.gc_setup = Some(n);
         }
         c
     }
@@ -262,6 +268,12 @@ pub fn completion_of(ctx: &mut Context, r: JsResult<JsValue>) -> String {
     }
 }
 
+/// `[strong boxes, ephemeron boxes, weak maps, bytes]` of this thread's GC heap.
+pub fn heap_json() -> Value {
+    let s = boa_gc::verif::stats();
+    json!([s.strongs, s.weaks, s.weak_maps, s.bytes])
+}
+
 pub fn depths_json(ctx: &Context) -> Value {
     let d = boa_engine::verif::vm_depths(ctx);
     json!([d.frames, d.stack_len, d.pending_exception, d.host_call_depth, d.env_depth, d.binding_stack_len])
@@ -270,11 +282,15 @@ pub fn depths_json(ctx: &Context) -> Value {
 /// Build a context the way every check does: limits, `__emit`, prelude.
 pub fn make_context(cfg: &Cfg) -> Context {
     set_mode("");
-    boa_gc::verif::set_schedule(boa_gc::verif::Schedule::Off);
+    boa_gc::verif::set_schedule(match cfg.gc_setup {
+        Some(k) => boa_gc::verif::Schedule::Every(k),
+        None => boa_gc::verif::Schedule::Off,
+    });
     let mut ctx = Context::default();
     apply_limits(&mut ctx, cfg);
     FUEL.with(|f| f.set(cfg.fuel));
     install_host(&mut ctx, cfg.prelude, true);
+    boa_gc::verif::set_schedule(boa_gc::verif::Schedule::Off);
     take_lines();
     if let Some(bits) = cfg.opt {
         ctx.set_optimizer_options(opt_from_bits(bits));
@@ -425,10 +441,17 @@ pub fn eval_in(ctx: &mut Context, src: &str, cfg: &Cfg) -> (Vec<String>, String,
 /// Fresh context + prelude + one program. Panics are caught and reported as a completion.
 pub fn run_case(src: &str, cfg: &Cfg) -> Value {
     let r = std::panic::catch_unwind(std::panic::AssertUnwindSafe(|| {
+        let heap0 = heap_json();
         let mut ctx = make_context(cfg);
-        let (lines, completion, extra) = eval_in(&mut ctx, src, cfg);
+        let (lines, completion, mut extra) = eval_in(&mut ctx, src, cfg);
         SHOW.with(|s| *s.borrow_mut() = None);
         drop(ctx);
+        // leak clause of C10: everything the context allocated is reclaimed by ONE collection after the drop
+        boa_gc::force_collect();
+        let heap1 = heap_json();
+        boa_gc::force_collect();
+        let heap2 = heap_json();
+        extra["heap"] = json!([heap0, heap1, heap2]);
         json!({"lines": lines, "completion": completion, "x": extra})
     }));
     match r {
